@@ -453,7 +453,7 @@ impl Adversary for Hostile {
                     hostile_frame(&mut self.rng, &view, window, self.allow_big)
                 };
                 let dt = if self.rng.chance(0.7) { 0 } else { self.rng.below(200_000) };
-                out.push(TimedOp { t_us: now_us + dt, rank: DELIVER_RANK_PUB, op: Op::Inject { to: victim, from, bytes } });
+                out.push(TimedOp { t_us: now_us + dt, rank: DELIVER_RANK_PUB, op: Op::Inject { to: victim, from, bytes, twin: false } });
                 self.count += 1;
             }
         }
